@@ -109,6 +109,7 @@ pub fn threaded_config() -> impl Strategy<Value = StoreConfig> {
     // small memtables so rollovers and flushes happen mid-history; stall thresholds far away and
     // generous compaction limits (C20's threaded part has its own configuration)
     (prop_oneof![Just(1u64), Just(600), Just(4096)], prop_oneof![Just(1u64), Just(2), Just(4)], prop_oneof![Just(0u64), Just(1u64 << 26)]).prop_map(|(mem, mf, cache)| StoreConfig {
+        bloom_bits: 17,
         memtable_size: mem,
         target_file_size: 4096,
         minimum_file_size: 4096,
@@ -638,6 +639,7 @@ fn run_ingest(ctx: &Ctx, c: &IngestCase) -> Outcome {
     verif::set_yield_hook(Some(yield_hook));
     let root: PathBuf = ctx.fresh_dir("ingest");
     let cfg = StoreConfig {
+        bloom_bits: 17,
         memtable_size: 1 << 20,
         target_file_size: 4096,
         minimum_file_size: 4096,
@@ -889,6 +891,7 @@ fn build_sst_sized(path: &std::path::Path, universe: &[Vec<u8>], keys: &[usize],
 
 fn wake_cfg(c: &WakeCase, stall: u64) -> StoreConfig {
     StoreConfig {
+        bloom_bits: 17,
         memtable_size: 1 << 20,
         target_file_size: 4096,
         minimum_file_size: 4096,
